@@ -14,48 +14,9 @@
 (* transliteration, ...) occur; distances from {0, 10, 20}; emoji ranks    *)
 (* 1..MaxEmoji.                                                            *)
 (***************************************************************************)
-EXTENDS Integers, Sequences, FiniteSets, TLC
+EXTENDS Ranking, TLC
 
 CONSTANTS MaxDict, MaxEmoji
-
-Texts == {"t1", "t2", "t3", "t4"}
-EmojiText == <<"e1", "e2", "e3", "e4", "e5", "e6", "e7", "e8", "e9", "e10", "e11", "e12">>
-Dists == {0, 10, 20}
-
-\* ----- Rank and its comparator (src/suggestion.rs) -----------------------------
-First(t)     == [v |-> "First", t |-> t, n |-> 0, src |-> "ac"]
-Emoji(t, r)  == [v |-> "Emoji", t |-> t, n |-> r, src |-> "emoji"]
-Other(t, d, s) == [v |-> "Other", t |-> t, n |-> d, src |-> s]
-Last(t, r, s)  == [v |-> "Last", t |-> t, n |-> r, src |-> s]
-
-\* -1 less, 0 equal, 1 greater
-Num(a, b) == IF a < b THEN -1 ELSE IF a = b THEN 0 ELSE 1
-ImplCmp(a, b) ==
-    CASE a.v = "First" /\ b.v = "First" -> 0
-      [] a.v = "First" -> -1
-      [] b.v = "First" -> 1
-      [] a.v = "Emoji" /\ b.v = "Emoji" -> 0
-      [] a.v = "Emoji" /\ b.v = "Other" -> Num(a.n, b.n)
-      [] a.v = "Other" /\ b.v = "Emoji" -> Num(a.n, b.n)
-      [] a.v = "Emoji" /\ b.v = "Last"  -> -1
-      [] a.v = "Last"  /\ b.v = "Emoji" -> 1
-      [] a.v = "Other" /\ b.v = "Other" -> Num(a.n, b.n)
-      [] a.v = "Other" /\ b.v = "Last"  -> -1
-      [] a.v = "Last"  /\ b.v = "Other" -> 1
-      [] OTHER -> Num(a.n, b.n)                       \* Last vs Last
-
-\* stable insertion sort with that comparator
-RECURSIVE InsertSorted(_, _)
-InsertSorted(sorted, x) ==          \* insert x after the last element that is not greater than x
-    IF sorted = <<>> THEN <<x>>
-    ELSE IF ImplCmp(sorted[Len(sorted)], x) = 1 THEN Append(InsertSorted(SubSeq(sorted, 1, Len(sorted) - 1), x), sorted[Len(sorted)])
-    ELSE Append(sorted, x)
-RECURSIVE SortRanks(_)
-SortRanks(s) == IF s = <<>> THEN <<>> ELSE InsertSorted(SortRanks(SubSeq(s, 1, Len(s) - 1)), s[Len(s)])
-
-PushChecked(list, x) == IF \E i \in 1..Len(list) : list[i].t = x.t THEN list ELSE Append(list, x)
-RECURSIVE PushAllChecked(_, _)
-PushAllChecked(list, xs) == IF xs = <<>> THEN list ELSE PushAllChecked(PushChecked(list, Head(xs)), Tail(xs))
 
 \* ----- the scenario: source facts ------------------------------------------------
 VARIABLES ac,        \* "" or the text of the auto-correct entry
